@@ -3,7 +3,7 @@
 usage: seedtest.py <id> [check ids...]   (default: the check of the same id)"""
 import json, os, shutil, subprocess, sys, time
 pid = sys.argv[1]
-checks = sys.argv[2:] or [pid]
+checks = sys.argv[2:] or [pid[:3]]
 wt = "/tmp/seed/%s" % pid
 seed = os.path.join(wt, "SEED")
 env = dict(os.environ, GOFLAGS="-mod=mod", GOPROXY="off", GOSUMDB="off", GOTOOLCHAIN="local")
@@ -30,22 +30,26 @@ dst = "/verif/seeded/%s" % pid
 os.makedirs(dst, exist_ok=True)
 for f in os.listdir(seed):
     shutil.copy(os.path.join(seed, f), os.path.join(dst, f))
-# 4. run the checks against /repo with the patch applied
+# 4. run the checks against a scratch copy of /repo's working tree with the patch applied (VERIF_REPO); /repo is not touched
 results = {}
 if valid:
-    rc, out = sh("git -C /repo apply %s" % os.path.join(dst, "patch.diff"), cwd="/verif")
+    mut = os.path.expanduser("~/.cache/servitor-verif/mutrepo-%d" % os.getpid())
+    shutil.rmtree(mut, ignore_errors=True)
+    os.makedirs(mut)
+    sh("rsync -a --exclude .git /repo/ %s/" % mut, cwd="/verif")
+    rc, out = sh("cd %s && git init -q . && git apply %s" % (mut, os.path.join(dst, "patch.diff")), cwd="/verif")
     if rc != 0:
-        print("patch does not apply to /repo:", out)
+        print("patch does not apply to /repo's tree:", out)
     else:
         try:
             for c in checks:
                 t0 = time.time()
-                rc, out = sh("timeout 1500 bin/check %s --tier quick" % c, cwd="/verif", timeout=1600)
+                rc, out = sh("VERIF_REPO=%s timeout 1800 bin/check %s --tier quick" % (mut, c), cwd="/verif", timeout=1900)
                 lines = [l for l in out.split("\n") if l.startswith("VIOLATION") or l.startswith("KNOWN") or l.startswith(c + " ")]
                 results[c] = {"exit": rc, "lines": lines, "wall_s": round(time.time() - t0)}
-                print(c, rc, lines)
+                print(c, rc, [l[:200] for l in lines])
         finally:
-            sh("git -C /repo checkout -- .", cwd="/verif")
+            shutil.rmtree(mut, ignore_errors=True)
 res["checks"] = results
 res["caught_by"] = [c for c, r in results.items() if r["exit"] != 0]
 try:
